@@ -89,6 +89,12 @@ CHECKS = {
             'exhaustive search run on a fresh object, none may score above its best, and greedy must be empty when the '
             'exhaustive search is; a third of the cases also run the brute-force oracle on the exhaustive result so that a '
             'fault there is attributed correctly.', '§5 C13'),
+    'C10': ('history checker: per-operation fresh-object replay (sequential reference model) + before/after snapshots of parameters and frame',
+            'Random histories of 2-12 public calls (13 operations: constraint sets, assignments, size range, count, group '
+            'listings, constraint predicate, both searches, result retrieval) are applied to one object; each normalised '
+            'answer or exception type is compared with the same call on a freshly built object, search_results() with what '
+            'the last search returned (also retrieved twice), and dataclasses.asdict(parameters) / the input frame are '
+            'compared around every call; thorough runs under three PYTHONHASHSEEDs.', '§5 C10'),
 }
 
 NOT_YET = {}
